@@ -124,4 +124,43 @@ def startPosAfterQueue (q : Queued) (r : Resp) (prev : Nat) : Nat :=
 def closesAfter (c : Conn) (ka : KA) : Bool :=
   ! (ka == .useKeepalive && ! c.readClosed && ! c.discardRequest)
 
+/-! ### error replies generated by the daemon itself (`transmit_error_response_len`) -/
+
+/-- the response object `transmit_error_response_len` builds: `MHD_create_response_from_buffer_static
+    (message_len, message)` and, for the automatic redirect of a request target with whitespace, one
+    header entry ("Location") appended WITHOUT any check (`MHD_add_response_entry_no_alloc_`) -/
+def errorResponse (msgLen : Nat) (hdr : Option (Bytes × Bytes)) : Resp :=
+  match hdr with
+  | none => Resp.create msgLen
+  | some (n, v) => { Resp.create msgLen with hdrs := [⟨.header, n, v⟩] }
+
+inductive ErrResult where
+  /-- the connection goes to CLOSED without any reply: second error on the same request, a reply is being
+      sent already, `MHD_queue_response` refused, or no room for the header block even in the emptied pool -/
+  | closedNoReply
+  /-- the error reply is sent through the normal reply path (HEADERS_SENDING …) -/
+  | reply (out : ReplyOut)
+deriving Repr, DecidableEq, Inhabited
+
+/-- `transmit_error_response_len (connection, status_code, message, message_len, header_name, …)`.
+    `stopWithError` = `connection->stop_with_error`, `tooLate` = `MHD_CONNECTION_START_REPLY < state`,
+    `wb1` = the write buffer `build_header_response` gets at the first attempt, `wb2` = at the retry after
+    `MHD_pool_reset` ("Retry with empty buffer"). -/
+def transmitErrorResponse (c : Conn) (stopWithError tooLate shutdown : Bool) (statusCode : Nat) (msg : Bytes)
+    (hdr : Option (Bytes × Bytes)) (date : Option Bytes) (wb1 wb2 : Nat) : ErrResult :=
+  if stopWithError then .closedNoReply
+  else if tooLate then .closedNoReply
+  else
+    let c1 := { c with discardRequest := true }
+    let r := errorResponse msg.length hdr
+    -- `connection->state = MHD_CONNECTION_FULL_REQ_RECEIVED`; a response queued earlier has been destroyed
+    match queueResponse c1 .fullReqReceived false shutdown false statusCode r with
+    | none => .closedNoReply
+    | some q =>
+      -- "Do not reuse this connection."
+      let c2 := { c1 with keepalive := .mustClose }
+      let wb := if (buildHeaderResponse c2 r q.code q.icy date wb1).2.2.isSome then wb1 else wb2
+      if (buildHeaderResponse c2 r q.code q.icy date wb).2.2.isNone then .closedNoReply
+      else .reply (sendReply c2 r q (.buffer msg) date wb (startPosAfterQueue q r 0))
+
 end Mhd.Reply
